@@ -106,6 +106,11 @@ void File::write_entire_contents_to(FILE* file)
     copy_from(m_file, file);
 }
 
+void File::flush()
+{
+    fflush(m_file, "Error occurred writing to file");
+}
+
 File File::create_temporary(FILE* initial_content)
 {
     File file(create_temporary_file());
